@@ -266,6 +266,9 @@ case("F62 unknown labels, two of three label axes reduced", f62, lambda r: r == 
 # F63
 case("F63 chunked std of a group of equal values", lambda: groupby_reduce(da.from_array(np.full(3, -17477.209205516196), chunks=2), np.zeros(3, int), func="std", engine="numpy")[0].compute().tolist(), lambda r: r == [0.0])
 
+# F64
+case("F64 empty expected_groups with sort=False", lambda: groupby_reduce(np.arange(4.0), np.array([0, 1, 0, 1]), func="sum", expected_groups=np.array([], dtype=int), sort=False, fill_value=0)[0].tolist(), lambda r: r == [])
+
 bad = 0
 for name, verdict in results:
     print(f"{name:55s} {verdict}")
